@@ -1,3 +1,4 @@
+import TemplVerif.Generated.Skeletons
 import TemplVerif.Model.Proxy
 import TemplVerif.Generated.Proxy
 /-
@@ -83,5 +84,19 @@ example : parseNonce [100, 101, 102, 97, 117, 108, 116, 45, 115, 114, 99, 32, 39
     = [97, 98, 99, 49, 50, 51] := by decide
 example : parseNonce [100, 101, 102, 97, 117, 108, 116, 45, 115, 114, 99, 32, 39, 115, 101, 108, 102, 39] = [] := by decide
 example : parseNonce [115, 99, 114, 105, 112, 116, 45, 115, 114, 99, 32, 39, 110, 111, 110, 99, 101, 45, 97, 39, 32, 39, 110, 111, 110, 99, 101, 45, 98, 39, 59, 32, 115, 99, 114, 105, 112, 116, 45, 115, 114, 99, 32, 39, 110, 111, 110, 99, 101, 45, 99, 39] = [97] := by decide
+
+-- BEGIN transcription pins (written by tools/mkpins.py)
+/-- T1, transcription pins: the control structure and calls (extract/skeleton.go) of the functions whose models
+    were written by hand are the ones the models were transcribed from:
+      cmd/templ/generatecmd/proxy/proxy.go insertScriptTagIntoBody
+      cmd/templ/generatecmd/proxy/proxy.go Handler.modifyResponse
+      cmd/templ/generatecmd/proxy/proxy.go parseNonce
+    A change of what one of them calls or how it branches breaks this theorem; the check then searches for a
+    failing input and reports either that or `no-failing-input-found`. -/
+theorem C20_transcription_pinned :
+    Generated.skel_proxy_insertScript = 8075675648413137107 ∧
+    Generated.skel_proxy_modifyResponse = 17326589039522162342 ∧
+    Generated.skel_proxy_parseNonce = 10634703123769029838 := by decide
+-- END transcription pins
 
 end TemplVerif.Props.C20
